@@ -23,7 +23,7 @@ type Taint struct {
 	val     map[ssa.Value]bool
 	fields  map[*types.Var]bool
 	allocs  map[*ssa.Alloc]bool
-	retT    map[*ssa.Function]bool
+	retT    map[*ssa.Function]map[int]bool
 	funcs   []*ssa.Function
 	changed bool
 	// why: one predecessor in the flow graph, for explanations
@@ -34,7 +34,7 @@ type Taint struct {
 
 func NewTaint(p *Prog) *Taint {
 	return &Taint{P: p, val: map[ssa.Value]bool{}, fields: map[*types.Var]bool{}, allocs: map[*ssa.Alloc]bool{},
-		retT: map[*ssa.Function]bool{}, why: map[ssa.Value]ssa.Value{}, allocSrc: map[*ssa.Alloc]ssa.Value{}, fieldSrc: map[*types.Var]ssa.Value{}}
+		retT: map[*ssa.Function]map[int]bool{}, why: map[ssa.Value]ssa.Value{}, allocSrc: map[*ssa.Alloc]ssa.Value{}, fieldSrc: map[*types.Var]ssa.Value{}}
 }
 
 func (t *Taint) mark(v ssa.Value, from ssa.Value) {
@@ -136,10 +136,15 @@ func (t *Taint) step(fn *ssa.Function) {
 			case *ssa.Call:
 				t.call(fn, x)
 			case *ssa.Return:
-				for _, r := range x.Results {
-					if t.val[r] && !t.retT[fn] {
-						t.retT[fn] = true
-						t.changed = true
+				for i, r := range x.Results {
+					if t.val[r] {
+						if t.retT[fn] == nil {
+							t.retT[fn] = map[int]bool{}
+						}
+						if !t.retT[fn][i] {
+							t.retT[fn][i] = true
+							t.changed = true
+						}
 					}
 				}
 			case *ssa.UnOp:
@@ -188,6 +193,19 @@ func (t *Taint) step(fn *ssa.Function) {
 						t.mark(x, e)
 					}
 				}
+			case *ssa.Extract:
+				if call, ok := x.Tuple.(*ssa.Call); ok {
+					callee := call.Call.StaticCallee()
+					if callee != nil && t.P.InModule(callee) && callee.Blocks != nil && (t.Scope == nil || t.Scope(callee)) {
+						if t.retT[callee][x.Index] {
+							t.mark(x, nil)
+						}
+						continue
+					}
+				}
+				if t.val[x.Tuple] {
+					t.mark(x, x.Tuple)
+				}
 			case ssa.Value:
 				if from := t.anyOperandTainted(ins); from != nil {
 					t.mark(x, from)
@@ -226,7 +244,7 @@ func (t *Taint) call(fn *ssa.Function, c *ssa.Call) {
 				t.mark(callee.Params[i], a)
 			}
 		}
-		if t.retT[callee] {
+		if callee.Signature.Results().Len() == 1 && t.retT[callee][0] {
 			t.mark(c, nil)
 		}
 		return
